@@ -106,3 +106,170 @@ class Driver(Kernel):
 
 
 KERNELS = [Driver()]
+
+
+matched = uf("pattern_matches", Obj, Obj, B)     # pattern p rewrites node x
+rewritten = uf("pattern_result", Obj, Obj, Obj)  # ... into this node
+idof = uf("id_of", Obj, I)
+
+
+class PassStep(Kernel):
+    id = "C05.P.pass_step"
+    prop = "C05"
+    file = "einx/_src/tracer/optimizer/optimizer.py"
+    module = "einx._src.tracer.optimizer.optimizer"
+    qual = "Optimizer/_optimize"
+    describe = ("region 'memo lookup ... pattern loop' of Optimizer._optimize, any number of patterns: a node already in the memo returns its memo entry and changes nothing; otherwise the FIRST "
+                "pattern (list order) that matches decides - its result is returned, recorded in the memo for this node, denotes what the node denotes (per-rule lemmas) and the changed flag is set; "
+                "if no pattern matches, neither the memo nor the flag is touched and control reaches the structural recursion")
+
+    def region(self, fnode):
+        import ast
+        body = fnode.body
+        if not (isinstance(body[0], ast.If) and isinstance(body[1], ast.For) and "self.optimizations" in ast.unparse(body[1].iter)):
+            raise LookupError("anchor: `if id(x) in self.id_to_newobj` followed by `for pattern in self.optimizations` not found at the head of _optimize")
+        return body[:2]
+
+    def setup(self, eng, bound=None):
+        import ast
+        self.x0 = z3.Const("x0", Obj)
+        self.n = z3.Int("n_patterns")
+        self.pats = z3.Array("patterns", I, Obj)
+        self.has0, self.val0 = z3.Array("memo_has", I, B), z3.Array("memo_val", I, Obj)
+        self.c0 = z3.Bool("changed_before")
+        dg = uf("den_graph", Obj, Obj)
+        pt, g = z3.Const("pt", Obj), z3.Const("g", Obj)
+        eng.axioms += [z3.ForAll([pt, g], z3.Implies(matched(pt, g), dg(rewritten(pt, g)) == dg(g)))]
+        eng.assumed.add("per-rule contract: a pattern that reports a match returns a node with the denotation of the node it was given (the lemmas C05.P.skip_* / inline / cast, one per rule)")
+        me = SRec("Optimizer", id_to_newobj=SMap(self.has0, self.val0, "int", "obj"), changed=SBool(self.c0), optimizations=SSeq(self.pats, self.n, "obj", "list"),
+                  _optimize=SObj(z3.Const("bound_optimize", Obj)), _set=SObj(z3.Const("bound_set", Obj)))
+        self.me = me
+
+        def c_pattern(e, p, av, kw):
+            pat = p.lookup("pattern")
+            ok = len(av) == 2 and isinstance(av[0], SObj) and isinstance(av[1], SObj)
+            e.oblige("callee-pre:a pattern is applied to the node and the optimizer's own recursion", p, z3.And(av[0].t == self.x0, av[1].t == z3.Const("bound_optimize", Obj)) if ok else z3.BoolVal(False), "callee-pre")
+            return STup([SBool(matched(pat.t, av[0].t)), SObj(rewritten(pat.t, av[0].t))])
+
+        def c_map(e, p, av, kw):
+            ok = len(av) == 3 and all(isinstance(a, SObj) for a in av)
+            e.oblige("callee-pre:pytree.map(self._set, old, new)", p, av[0].t == z3.Const("bound_set", Obj) if ok else z3.BoolVal(False), "callee-pre")
+            st = p.lookup("self")
+            m = st.f["id_to_newobj"]
+            f = dict(st.f)
+            f["id_to_newobj"] = SMap(z3.Store(m.has, idof(av[1].t), z3.BoolVal(True)), z3.Store(m.val, idof(av[1].t), av[2].t), "int", "obj")
+            nr = SRec("Optimizer", **f)
+            p.bind("self", nr)
+            return SConc(None)
+
+        def c_id(e, p, av, kw):
+            return SInt(idof(av[0].t))
+
+        eng.contracts.update({"pattern": SContract(c_pattern, "pattern(x, optimize) -> (matched, new node)"), "pytree.map": SContract(c_map, "pytree.map(self._set, old, new) on leaves: memo[id(old)] = new"),
+                              "id": SContract(c_id, "id()")})
+        orig_apply = eng.apply
+
+        def apply(f, av, kw, p, n):  # calling the loop variable `pattern` (an opaque callable): its contract
+            if isinstance(f, SObj) and isinstance(n.func, ast.Name) and n.func.id == "pattern":
+                yield c_pattern(eng, p, av, kw), p
+                return
+            yield from orig_apply(f, av, kw, p, n)
+
+        eng.apply = apply
+        orig_compare = eng.compare
+
+        def compare(op, a, b, p):
+            if isinstance(b, SMap) and isinstance(op, (ast.In, ast.NotIn)) and isinstance(a, SInt):
+                e_ = z3.Select(b.has, a.t)
+                return e_ if isinstance(op, ast.In) else z3.Not(e_)
+            return orig_compare(op, a, b, p)
+
+        eng.compare = compare
+        orig_sub = eng.ev_Subscript
+
+        def ev_Subscript(n, p):  # memo[key] on the symbolic dict: KeyError unless present
+            if isinstance(n.ctx, ast.Load) and ast.unparse(n.value) == "self.id_to_newobj":
+                for k, p1 in eng.ev(n.slice, p):
+                    m = p1.lookup("self").f["id_to_newobj"]
+                    q = eng.may_raise("KeyError", z3.Select(m.has, k.t), p1, f"memo:line{n.lineno}", n.lineno)
+                    if q is not None:
+                        yield SObj(z3.Select(m.val, k.t)), q
+                return
+            yield from orig_sub(n, p)
+
+        eng.ev_Subscript = ev_Subscript
+
+        def same_state(st):
+            m = st.f["id_to_newobj"]
+            k = fresh("k")
+            return z3.And(st.f["_optimize"].t == z3.Const("bound_optimize", Obj), st.f["_set"].t == z3.Const("bound_set", Obj), eng.truth(st.f["changed"]) == self.c0, z3.ForAll([k], z3.And(z3.Select(m.has, k) == z3.Select(self.has0, k), z3.Select(m.val, k) == z3.Select(self.val0, k))))
+
+        self.same_state = same_state
+
+        def inv(s, p, i):
+            j = fresh("j")
+            return z3.And(same_state(p.lookup("self")), z3.ForAll([j], z3.Implies(z3.And(0 <= j, j < i), z3.Not(matched(z3.Select(self.pats, j), self.x0)))))
+
+        eng.invariants[0] = inv
+        return {"self": me, "x": SObj(self.x0)}, [self.n >= 0], {}
+
+    def post(self, eng, out, p):
+        key = idof(self.x0)
+        hit = z3.Select(self.has0, key)
+        st = p.lookup("self")
+        j = fresh("j")
+        if isinstance(out, Raise):
+            eng.oblige("post:no exception", p, z3.BoolVal(False), "post")
+            return
+        if out is None:
+            eng.oblige("post:the structural recursion is reached only for a node outside the memo that no pattern matches", p,
+                       z3.And(z3.Not(hit), z3.ForAll([j], z3.Implies(z3.And(0 <= j, j < self.n), z3.Not(matched(z3.Select(self.pats, j), self.x0))))), "post")
+            eng.oblige("post:... with memo and changed flag untouched", p, self.same_state(st), "post")
+            return
+        r = out.v
+        if not isinstance(r, SObj):
+            eng.oblige("post:returns a node", p, z3.BoolVal(False), "post")
+            return
+        if not p.has("pattern"):
+            eng.oblige("post:return before the pattern loop only for a node in the memo, with its memo entry", p, z3.And(hit, r.t == z3.Select(self.val0, key)), "post")
+            eng.oblige("post:a memo hit changes nothing", p, self.same_state(st), "post")
+            return
+        pat = p.lookup("pattern").t
+        i = fresh("i")
+        dg = uf("den_graph", Obj, Obj)
+        eng.oblige("post:a pattern decides only for a node outside the memo", p, z3.Not(hit), "post")
+        eng.oblige("post:the deciding pattern is the first one in list order that matches", p,
+                   z3.Exists([i], z3.And(0 <= i, i < self.n, z3.Select(self.pats, i) == pat, matched(pat, self.x0), z3.ForAll([j], z3.Implies(z3.And(0 <= j, j < i), z3.Not(matched(z3.Select(self.pats, j), self.x0)))))), "post")
+        eng.oblige("post:its result is returned and denotes what the node denotes", p, z3.And(r.t == rewritten(pat, self.x0), dg(r.t) == dg(self.x0)), "post")
+        m = st.f["id_to_newobj"]
+        k = fresh("k")
+        eng.oblige("post:the changed flag is set", p, eng.truth(st.f["changed"]), "post")
+        eng.oblige("post:the memo gains exactly the entry node -> result", p, z3.And(z3.Select(m.has, key), z3.Select(m.val, key) == r.t,
+                   z3.ForAll([k], z3.Implies(k != key, z3.And(z3.Select(m.has, k) == z3.Select(self.has0, k), z3.Select(m.val, k) == z3.Select(self.val0, k))))), "post")
+
+    def twin(self, tier):
+        import itertools
+        import einx._src.tracer.optimizer.optimizer as O
+        n, fails = 0, []
+        for flags in itertools.product((False, True), repeat=3):
+            n += 1
+            calls = []
+
+            def mk(i):
+                def pat(x, rec):
+                    calls.append(i)
+                    return (True, f"new{i}") if flags[i] else (False, None)
+                return pat
+
+            o = O.Optimizer([mk(0), mk(1), mk(2)])
+            r = o._optimize("node")
+            first = flags.index(True) if any(flags) else None
+            if first is None:
+                if r != "node" or o.changed or calls != [0, 1, 2]:
+                    fails.append({"detail": f"no pattern matches: result {r!r}, changed={o.changed}, calls={calls}"})
+            elif r != f"new{first}" or not o.changed or calls != list(range(first + 1)):
+                fails.append({"detail": f"match flags {flags}: result {r!r}, changed={o.changed}, calls={calls}"})
+        return n, fails[:3]
+
+
+KERNELS.append(PassStep())
